@@ -61,6 +61,27 @@ def rows(facts, body):
                         adapt = oo.callee.split('::')[-1]
                         fn = closure_outcomes(facts, body, oo.args[1]) if len(oo.args) > 1 else adapt
                     ev.append(('extend', src, fn))
+                elif nm == 'for_each' and len(t['args']) == 2:
+                    # `iter.for_each(|x| items.push((x.clone(), Action)))` is the same tail as `items.extend(iter.map(..))`
+                    src = user_local_of(body, t['args'][0]) or describe(body.origin_of_operand(t['args'][0]))
+                    o = body.origin_of_operand(t['args'][1])
+                    while o is not None and o.kind in ('ref', 'cast'):
+                        o = o.base
+                    fn = None
+                    if o is not None and o.kind == 'agg' and o.rv.get('kind') == 'closure':
+                        cls = facts.find(norm(o.rv['def']))
+                        if cls:
+                            acts = []
+                            for cp in enumerate_paths(cls[0], facts):
+                                for cs in cp.events:
+                                    if cs.callee.split('::')[-1] == 'push' and 'Vec' not in cs.callee:
+                                        ea = cp.event_args.get(cs.bb)
+                                        if ea:
+                                            acts.append(ea[-1])
+                                    elif cs.callee.split('::')[-1] == 'withdraw' and 'AspaAction' in cs.callee:
+                                        acts.append('AspaAction::withdraw')
+                            fn = sorted(set(acts))
+                    ev.append(('extend', src, fn))
                 elif nm == 'next':
                     it = user_local_of(body, t['args'][0])
                     dest = body.local_name(t['dest'][0]) if len(t['dest']) == 1 else '?'
